@@ -314,7 +314,11 @@ class SetMethod(DeserializationMethod):
         values: set = set()
         for i, elt in enumerate(data):
             try:
-                values.add(self.value_method.deserialize(elt))
+                value = self.value_method.deserialize(elt)
+                try:
+                    values.add(value)
+                except TypeError as err:  # e.g. array/object item of Set[Any]
+                    raise ValidationError(str(err))
             except ValidationError as err:
                 elt_errors = set_child_error(elt_errors, i, err)
         validate_constraints(data, self.constraints, elt_errors)
@@ -326,7 +330,11 @@ class FrozenSetMethod(DeserializationMethod):
     method: DeserializationMethod
 
     def deserialize(self, data: Any) -> Any:
-        return frozenset(self.method.deserialize(data))
+        values = self.method.deserialize(data)
+        try:
+            return frozenset(values)
+        except TypeError as err:  # e.g. array/object item of FrozenSet[Any]
+            raise ValidationError(str(err))
 
 
 @dataclass
